@@ -46,6 +46,9 @@ def obligations(tier):
         Ob("C05.trailer.read", "X", "read_sar_trailer cuts image k from [sum_{j<k} len_j, sum_{j<=k} len_j) of the bytes after the 720-byte descriptor, with its own shape and sample size",
            ["ceos_alos2.sar_trailer:read_sar_trailer"], bounds="forall lengths, shapes, sample sizes (unbounded ints); image count 0..3",
            harness="harness/h_trailer.py", func="trailer_ok", timeout=300),
+        Ob("C05.e2e", "E", "witness replay with the real parser on synthesised leaders: 1/5/136 attitude points, 1/8/9/12/16 channels, facility lengths 66..5000, with/without map "
+           "projection, short attitude record: every record behind the variable ones carries its own preamble and sentinel values",
+           [S + "io:parse_data", S + "structure:sar_leader_record"], bounds="concrete replays (not the deciding step)", call="props.e2e:ob_framing", wall_timeout=900),
     ]
 
 
